@@ -10,7 +10,7 @@ LEVEL = "model_checking"
 MC = ["L4Listener_A_FALSE.cfg", "L4Listener_B_FALSE.cfg", "L4Listener_C_FALSE.cfg"]
 
 
-def listener_pipeline(res, tier, clauses, pid):
+def listener_pipeline(res, tier, clauses, pid, only_mix=None):
     vdrive = build_harness()
     cov = res.coverage
     cov.update(states=0, transitions=0, traces_validated_against_impl=0, samples=[], model_runs=[])
@@ -28,6 +28,8 @@ def listener_pipeline(res, tier, clauses, pid):
         cov["model_selftest"] = "NoReuseWhileReferenced fails in L4Listener with PutOnHijack=TRUE (pinned commit), holds with FALSE"
         g = run_tlc(tmp, "L4ListenerGrid.tla", f"L4ListenerGrid_{tier}.cfg", workers=1, timeout=300)
         tlc_ok(g, "L4ListenerGrid")
+        if only_mix:
+            g["vout"] = [x for x in g["vout"] if only_mix in x["mix"]]
         gf = os.path.join(tmp, "grid.ndjson")
         with open(gf, "w") as f:
             for x in g["vout"]:
@@ -65,11 +67,11 @@ def listener_pipeline(res, tier, clauses, pid):
                         "TLS-terminated fall-through uses the real l4tls matcher and handler (in-process Caddy with a self-signed certificate) and a crypto/tls client over loopback TCP"]
 
 
-def add_to(res, tier, clauses, pid):
+def add_to(res, tier, clauses, pid, only_mix=None):
     """the listener-wrapper runs as a PART of another property's check: violations of `clauses` are reported under
     pid, the coverage goes into res.coverage['listener_wrapper']"""
     sub = Result(pid, tier, res.level)
-    listener_pipeline(sub, tier, clauses, pid)
+    listener_pipeline(sub, tier, clauses, pid, only_mix)
     res.violations += sub.violations
     runs = sub.coverage.get("runs", {})
     res.coverage["listener_wrapper"] = dict(clauses=list(clauses), traces_validated_against_impl=sub.coverage["traces_validated_against_impl"],
